@@ -165,7 +165,8 @@ def session_messages(chk):
         if hh.dead:
             chk.violation("the server harness aborted on corpus file %s: %s" % (os.path.basename(f), hh.dead[2][-600:]), cops, key="c10:corpus-abort")
     for k in range(32 if thorough else 12):
-        g = srvgen.Gen(random.Random(chk.seed * 104729 + k), srv, bind=5353, wild=(True if k % 3 == 1 else None), other=(3.0 if k % 3 == 1 else 1.0))
+        g = srvgen.Gen(random.Random(chk.seed * 104729 + k), srv, bind=5353, wild=(True if k % 3 == 1 else None), other=(3.0 if k % 3 == 1 else 1.0),
+                       scenario=("lazy" if k % 4 == 0 else None))
         h = g.run(400)
         ops = [s.op for s in h.steps]
         # "each answer carries the id, name and type of the query it answers": every answer must match a received, unanswered query
